@@ -1593,6 +1593,11 @@ class S16(object):
                     w.at_poll(SAFETY_POLLS, K.sig_break())
                 else:
                     w.at_poll(brk[1], K.sig_break())
+            elif via == 'exec':
+                # a direct statement can start an endless loop on its own (an armed trap whose handler ends in RESUME
+                # retries the failing direct statement for ever): far beyond any statement here, Ctrl-Break.
+                # (Typed statements have the typist's own stall break.)
+                w.at_poll(2 * SAFETY_POLLS, K.sig_break())
             if via == 'exec':
                 w.poll_hook = hook
                 out = self.d.exec(b(line), poll_cap=60000).out
@@ -1623,6 +1628,11 @@ class S16(object):
 
     def expect_ifc(self, kind, line, via, out):
         if self.prot is True and not self.trap and self.crashes == 0:
+            if via != 'exec' and (b'\n' + b(line) + b'\r\n') not in (b'\n' + out):
+                # what was typed went onto a screen row that already held text (after LOCATE, behind a trace
+                # number): the editor handed the interpreter another line than the one meant
+                self.run.probe('typed_line_merged')
+                return
             self.run.probe('ifc_checked')
             e = self.errs(out)
             if not e or e[0] != 5:
@@ -1684,14 +1694,22 @@ class S16(object):
         d.exec(b'SAVE "Z:UB.BAS"')
         d.close()
         # windows of the protected program's tokenised image that are binary enough never to be produced by
-        # anything else in the run (at least two bytes that are not printable ASCII), minus those that the other
-        # party's own tokenised program happens to share
+        # anything else in the run: they lie inside one statement body (a line header - pointer, number - and the
+        # first token behind it are also what a line typed by the user under the same number tokenises to) and hold
+        # at least two bytes that are not printable ASCII; minus those that the other party's own tokenised
+        # program happens to share
         other = _read(root + '/z/UB.BAS')
         img = self.pimg
-        for i in range(len(img) - FRAG + 1):
-            win = img[i:i + FRAG]
-            if len(win.translate(None, _PLAIN)) >= 2 and win not in other and win not in self.tokwin:
-                self.tokwin[win] = i
+        pos = 0
+        while pos + 4 < len(img):
+            nxt = (img[pos] | (img[pos + 1] << 8)) - self.start
+            if not pos + 4 < nxt <= len(img):
+                break
+            for i in range(pos + 4, nxt - 1 - FRAG + 1):
+                win = img[i:i + FRAG]
+                if len(win.translate(None, _PLAIN)) >= 2 and win not in other and win not in self.tokwin:
+                    self.tokwin[win] = i
+            pos = nxt
 
     @staticmethod
     def ref_key(brk):
@@ -1825,7 +1843,8 @@ class S16(object):
         if kind == 'edit':
             # the EDIT prompt only exists at the interactive prompt
             viaa = 'type'
-        if kind in ('tron', 'screen', 'key'):
+        if kind in ('tron', 'screen', 'key', 'save-dev-p', 'print-common'):
+            # (SAVE "SCRN:",P and long strings leave the cursor and the scroll state elsewhere)
             self.env_dirty = True
         if kind == 'read' and self.prot is not False:
             self.read_done = True
